@@ -12,7 +12,8 @@ Oracles (DESIGN.md section 6, C03)
                 interaction of read / after the evaluator yielded j rows: run() does not raise, every triple whose solo run
                 is hit by the fault has NO rows, every other triple is present and solo-equal, the captured log contains the
                 marker at least once per failing triple.
-  (d) user's learner objects after run(): a learner object listed in >= 2 triples is left exactly as a never-used twin.
+  (d) user's learner objects after run(): a learner object listed in >= 2 triples is left exactly as a never-used twin
+      (some doubles implement the optional finish() hook, which releases their model: the listed object is never finished).
 Executed in-process, through the simulated workers of C01 (owned schedule) and through a few really spawned workers.
 """
 from hypothesis import strategies as st
@@ -240,6 +241,8 @@ def classes(case):
     trip = G.static_triples(desc)
     if len({e for e, _, _ in trip}) < len(trip): out.append("shared-environment-object")
     if G.has_ref_corral(desc): out.append("corral-over-listed-learner")
+    fin = [i for i, l in enumerate(desc["learners"]) if (l["inner"] if l["kind"] == "faulty" else l).get("finish") and l["kind"] != "faulty"]
+    if set(fin) & set(G.shared_learners(desc)): out.append("shared-learner-with-finish-hook")
     out.append("exec=" + case["exec"].get("mode", "inproc"))
     if "fault" in case:
         out.append("fault=" + case["fault"]["kind"])
